@@ -69,7 +69,7 @@ def cases(draw, max_nodes):
         for i in calls:
             if draw(st.integers(0, 3)) == 0:
                 g.nodes[i]["beh"] = {"t": "raise", "exc": draw(st.sampled_from(["exc", "val"])), "first": -1}
-        cfg["max_errors"] = draw(st.sampled_from([None, None, 5, 1]))
+        cfg["max_errors"] = draw(st.sampled_from([None, None, 5, 1, 0, 0]))
     return {"spec": spec, "cfg": cfg, "registry": use_reg, "sched": draw(harness.schedules(det_only=True)),
             "trace_all": draw(st.sampled_from([False, False, True]))}
 
